@@ -244,6 +244,8 @@ def paths():
     return st.one_of(
         st.builds(lambda s, via: M("path", ("posix", s, via)), posix_path_str(), st.sampled_from(["str", "pure", "from"])),
         st.builds(lambda s, via: M("path", ("windows", s, via)), windows_path_str(), st.sampled_from(["pure", "from"])),
+        # a POSIX path whose names contain backslashes / a drive-looking prefix: still a POSIX path
+        st.builds(lambda s, via: M("path", ("posix", s, via)), windows_path_str(), st.sampled_from(["pure", "from"])),
     )
 
 
